@@ -31,6 +31,8 @@ pub struct Replay {
     pub violation: Violation,
     pub shim_ring: Option<String>,
     pub minimised_from_steps: usize,
+    #[serde(default)]
+    pub hard_fault: Option<(usize, i64, i32)>,
 }
 
 #[derive(Clone, Debug, Default, Serialize, Deserialize)]
@@ -164,12 +166,23 @@ pub fn worker_runs(
         let seed = run_seed(global_seed, &engine, i);
         let (history, sw) = generate::gen_history(seed, plan.class, plan.max_steps);
         let chaos = plan.chaos_every > 0 && i % plan.chaos_every == plan.chaos_every - 1;
+        // every fifth run: one hard I/O error somewhere in the middle, then the history goes on
+        let hard_fault = (i % 5 == 2 && !chaos).then(|| {
+            let mut fr = crate::rng::Rng::sub(seed, "mid-history-fault");
+            let calls = history.ops.iter().filter(|o| !matches!(o, Op::PlainFile { .. } | Op::MkDir { .. } | Op::Symlink { .. } | Op::HardLink { .. } | Op::Implicit { .. } | Op::SpecDir { .. } | Op::TopSymlink { .. } | Op::Restore { .. })).count().max(1);
+            (
+                1 + fr.usize(calls),
+                1 + fr.below(14) as i64,
+                *fr.pick(&[libc::EIO, libc::EACCES, libc::ENOSPC]),
+            )
+        });
         let cfg = RunCfg {
             root: scratch.join("w"),
             seed,
             chaos,
             rd_perm: true,
             keep_event_log: plan.keep_event_log,
+            hard_fault,
         };
         let rep = run_isolated(&history, &cfg, shim);
         sum.runs += 1;
@@ -238,6 +251,7 @@ pub fn worker_runs(
                     history,
                     violation: v,
                     shim_ring: Some(ring),
+                    hard_fault,
                 });
             } else if !relevant {
                 *sum.probes.entry(format!("out_of_scope_violation_{}", v.properties.join("+"))).or_insert(0) += 1;
@@ -285,6 +299,7 @@ pub fn minimise(replay: &Replay, scratch: &Path, shim: &Shim) -> Replay {
         chaos: replay.chaos,
         rd_perm: replay.rd_perm,
         keep_event_log: false,
+        hard_fault: replay.hard_fault,
     };
     let mut best = replay.clone();
     // cut everything after the failing step
@@ -384,6 +399,7 @@ pub fn replay_once(replay: &Replay, scratch: &Path, shim: &Shim) -> RunReport {
         chaos: replay.chaos,
         rd_perm: replay.rd_perm,
         keep_event_log: true,
+        hard_fault: replay.hard_fault,
     };
     run_isolated(&replay.history, &cfg, shim)
 }
